@@ -4,6 +4,7 @@ package zz_verif
 
 import (
 	ipfslog "berty.tech/go-ipfs-log"
+	"berty.tech/go-ipfs-log/entry"
 	"berty.tech/go-ipfs-log/iface"
 	"berty.tech/go-ipfs-log/internal/vx"
 	"github.com/ipfs/go-cid"
@@ -185,3 +186,42 @@ func H_C15() {
 }
 
 var _ = register("H_C15", H_C15)
+
+// H_C15_siblings: two logs opened from one and the same (empty) entries value are independent: an upper bound
+// that only the sibling knows is an unknown bound.
+func H_C15_siblings() {
+	h := newHist(histCfg{R: 1, K: 0, W: 2, sort: vx.Param("SORT", sortLWW), pcN: 1, emptyAt: -1, denyP: -1})
+	shared := entry.NewOrderedMap()
+	var src iface.IPFSLogOrderedEntries = shared
+	if vx.Choice("via", 2) == 1 {
+		src = freshObserver(h, 0).GetEntries() // the entries of a still empty log
+	}
+	S1 := newLogOpt(h.api, h.ids[0], &ipfslog.LogOptions{SortFn: h.sortFn(), Entries: src})
+	S2 := newLogOpt(h.api, h.ids[1], &ipfslog.LogOptions{SortFn: h.sortFn(), Entries: src})
+	n := 1 + vx.Choice("n", 2)
+	var last iface.IPFSLogEntry
+	for i := 0; i < n; i++ {
+		e, err := S1.Append(ctx, []byte{'s', byte('0' + i)}, nil)
+		if err != nil {
+			panic(err)
+		}
+		last = e
+	}
+	vx.Assert("C15", S2.Len() == 0, "a log opened from the same entries value is not changed by appends to its sibling")
+	opts := &ipfslog.IteratorOptions{}
+	if vx.Choice("bound", 2) == 0 {
+		opts.LTE = []cid.Cid{last.GetHash()}
+		vx.Sig("upper=LTE-unknown")
+	} else {
+		opts.LT = []cid.Cid{last.GetHash()}
+		vx.Sig("upper=LT-unknown")
+	}
+	ch := make(chan iface.IPFSLogEntry, 8)
+	err := S2.Iterator(opts, ch)
+	out, _ := drain(ch, 8)
+	vx.Assert("C15", err != nil, "an unknown upper bound is reported as an error")
+	vx.Assert("C15", len(out) == 0, "nothing is emitted for an unknown upper bound")
+	vx.Cover("siblings-checked")
+}
+
+var _ = register("H_C15_siblings", H_C15_siblings)
